@@ -162,7 +162,8 @@ def tokshape(kind, tok):
 
 def run_chunk(job):
     """job = (kind, [tokens]) -> list of violations (key, what, case) + counters"""
-    kind, toks = job
+    kind, toks = job[:2]
+    ctxs = job[2] if len(job) > 2 else CONTEXTS
     d = _W['d']
     d.recycle_if_big()
     ent = KINDS[kind][0]
@@ -175,7 +176,7 @@ def run_chunk(job):
         for tok in toks:
             cls, want = oracle(kind, tok)
             counts[cls] += 1
-            for ctx in CONTEXTS:
+            for ctx in ctxs:
                 inputs.append((tok + ctx))
                 meta.append((tok, ctx, cls, want))
         B = 400
@@ -356,9 +357,22 @@ def main():
         chk.bounds[kind] = {'alphabet': alpha, 'max_len': L, 'tokens': len(toks)}
         for i in range(0, len(toks), 1500):
             jobs.append((kind, toks[i:i + 1500]))
+    # every comment body up to length 3 over { * / c blank } (not beginning with '/', not containing the closing pair) between the token and its
+    # delimiter, for the boundary tokens and all tokens of length <= 2
+    bodies = [''.join(b) for n in range(0, 4) for b in itertools.product('*/c ', repeat=n)]
+    bodies = [b for b in bodies if not b.startswith('/') and '*/' not in b]
+    cctx = ['/*%s*/%s' % (b, dl) for b in bodies for dl in (',', ')')] + [' /*%s*/ ,' % b for b in bodies]
+    for kind, (ent, alpha, lq, lt) in KINDS.items():
+        toks = list(all_tokens(alpha, 2 if args.tier == 'quick' else 3)) + EXTRA.get(kind, [])
+        seen = set()
+        toks = [t for t in toks if not (t in seen or seen.add(t)) and '/' not in t]
+        chk.bounds[kind]['comment_contexts'] = len(cctx)
+        for i in range(0, len(toks), 40):
+            jobs.append((kind, toks[i:i + 40], cctx))
     tot = {}
     with mp.get_context('fork').Pool(common.NCPU, initializer=_init, initargs=(lib.dir,)) as pool:
-        for (kind, toks), (viol, counts) in zip(jobs, pool.imap(run_chunk, jobs)):
+        for job, (viol, counts) in zip(jobs, pool.imap(run_chunk, jobs)):
+            kind = job[0]
             chk.count(states=counts['cases'], transitions=counts['cases'])
             for k, v in counts.items():
                 tot[kind + '/' + k] = tot.get(kind + '/' + k, 0) + v
